@@ -229,7 +229,10 @@ def power_array(value, combination):
     nneg, npos = -min(npowers), max(ppowers)
     # store negative powers at end of array, so can use negative indexing:
     p = np.zeros(1 + npos + nneg, float64)
-    p[0], p[1], p[-1] = 1.0, value, 1.0 / value
+    p[0], p[1] = 1.0, value
+    # the reciprocal does not exist for a zero value (e.g. visc() at the critical density);
+    # only fail then if negative powers have actually been asked for:
+    if value != 0. or nneg > 1: p[-1] = 1.0 / value
     for c in combination:
         p[c[0]] = p[c[1][0]]
         for mult in c[1][1:]:
